@@ -163,14 +163,14 @@ def make_scenario(rng, sub=None, input_kind=None, force=None):
             sc["stubs"].append("wrongbe")
         if opt("backend_args", 0.25):
             sc["backend_args"] = rng.choice([["-O1"], ["-O2", "-g"], ["--flag=x"]])
-            sc["opts"] += ["--backend-args", " ".join(sc["backend_args"])]
+            sc["opts"] += ["--backend-args=" + " ".join(sc["backend_args"])]
         cfg_variant = force.get("config", rng.choice(["none"] * 4 + ["valid", "malformed", "unknown_field", "missing"]) if not is_run else "none")
         if not is_run:
             if use_cfg and cfg_variant == "none":
                 cfg_variant = "valid"
             if opt("link_args", 0.2):
                 sc["link_args"] = rng.choice([["-lm"], ["--gc-sections", "-lc"]])
-                sc["opts"] += ["--link-args", " ".join(sc["link_args"])]
+                sc["opts"] += ["--link-args=" + " ".join(sc["link_args"])]
             if cfg_variant != "none":
                 sc["opts"] += ["--config", "penne.toml"]
                 if cfg_variant == "valid":
@@ -244,6 +244,10 @@ def exec_scenario(sc, wd, plan=None, keep=False, real_lli=False):
         os.makedirs(os.path.join(wd, d), exist_ok=True)
     if sc.get("pre_files") and not sc.get("_no_pre_files"):
         write_files(wd, sc["pre_files"])
+    for link, target in sc.get("pre_symlinks", {}).items():
+        p = os.path.join(wd, link)
+        os.makedirs(os.path.dirname(p), exist_ok=True)
+        os.symlink(target, p)
     bindir = os.path.join(wd, "bin")
     os.makedirs(bindir)
     for name in sorted(set(sc["stubs"])):
@@ -264,7 +268,12 @@ def exec_scenario(sc, wd, plan=None, keep=False, real_lli=False):
     trace_path = os.path.join(wd, "trace.txt")
     env = sim_env(env, entropy=sc.get("entropy", 1), plan=plan, order="child_first" if order == "child_first" else None,
                   trace=trace_path, clock=(10**12, 1000), pid=4242)
-    r = run_proc(argv_of(sc), wd, env)
+    stdout_kind = sc.get("stdout_kind", "pipe")
+    if stdout_kind == "pipe":
+        r = run_proc(argv_of(sc), wd, env)
+    else:
+        # real-OS reporting faults: stdout is /dev/full (every write ENOSPC) or closed
+        r = run_proc(argv_of(sc), wd, env, stdout_kind=stdout_kind)
     trace = read_trace(trace_path)
     obs = {"status": r.status(), "rc": r.rc, "sig": r.sig, "timeout": r.timeout, "out": r.out, "err": r.err, "trace": trace,
            "artefacts": {}, "marker": [], "stdin": {}}
@@ -274,8 +283,11 @@ def exec_scenario(sc, wd, plan=None, keep=False, real_lli=False):
             for dp, _d, names in sorted(os.walk(od)):
                 for n in sorted(names):
                     p = os.path.join(dp, n)
+                    if os.path.islink(p) or not os.path.isfile(p):
+                        obs["artefacts"][os.path.relpath(p, od)] = b"<not a regular file>"
+                        continue
                     with open(p, "rb") as f:
-                        obs["artefacts"][os.path.relpath(p, od)] = f.read()
+                        obs["artefacts"][os.path.relpath(p, od)] = f.read(8 << 20)
     try:
         with open(os.path.join(wd, "marker")) as f:
             for line in f.read().splitlines():
@@ -311,8 +323,11 @@ def parse_trace(trace):
             continue
         cls, idx, detail, result = m.group(1), int(m.group(2)), m.group(3), m.group(4)
         failed = result.startswith("-") and result != "-EINTR"
-        if cls in ("open", "mkdir"):
-            failed = failed or (result not in ("ok",) and not result.startswith("-EINTR") and cls == "open")
+        if cls == "open":
+            failed = failed or (result != "ok" and result != "-EINTR")
+        if cls == "mkdir":
+            # natural ENOENT / EEXIST are the two results create_dir_all expects
+            failed = failed or result not in ("ok", "File exists", "No such file or directory")
         calls.append({"cls": cls, "idx": idx, "detail": detail, "result": result, "failed": failed})
     return calls, fired
 
@@ -375,7 +390,11 @@ def model_expect_zero(sc, calls):
         return True, "emit_ok"
     waits = [c for c in calls if c["cls"] == "wait" and c["result"] != "-EINTR"]
     if not waits:
-        return False, "no_wait"
+        # nothing failed, yet no backend was waited for: a faithful tool would
+        # have run it; success is what the model expects (S5 then demands the
+        # marker), so both "exit 0 without a backend" and "failure for no
+        # reason" are flagged
+        return True, "backend_never_ran"
     res = waits[-1]["result"]
     if sc["sub"] == "run":
         return (res.startswith("exit "), "backend:" + res)
@@ -410,13 +429,15 @@ def judge(sc, obs, census, plan_kind, benign, self_census=False):
     for c in calls:
         if c["cls"] == "mkdir":
             c["creating"] = True
-    stdio_failed = any(c["failed"] and c["cls"] in ("out", "err") for c in calls)
+    stdio_failed = any(c["failed"] and c["cls"] in ("out", "err") for c in calls) or sc.get("stdout_kind", "pipe") != "pipe"
     expect_zero, why = model_expect_zero(sc, calls)
     rc = obs["rc"]
     ok_exit = rc == 0 and not obs["sig"]
     crashed = bool(obs["sig"]) or rc not in (0, 1, 2, 101)
     if crashed and not stdio_failed:
         viol.append(("cli_crash", "penne died with %s (%s)" % (obs["status"], why)))
+    if rc == 2 and b"Usage:" in obs["err"]:
+        viol.append(("unexpected_usage_error", "a valid command line was rejected: %s" % obs["err"].decode(errors="replace")[:300]))
     if rc == 101 and not stdio_failed:
         viol.append(("cli_panic", "penne panicked: %s" % obs["err"].decode(errors="replace")[-300:]))
     if not stdio_failed:
@@ -648,6 +669,65 @@ def script_grid():
     return cells
 
 
+FS_VARIANTS = ["artefact_is_directory", "artefact_symlink_to_devfull", "out_dir_through_regular_file", "source_is_directory",
+               "source_symlink_loop", "stdout_devfull", "stdout_closed", "config_is_directory"]
+
+
+def _fs_variant_job(args):
+    """Failures produced by the real file system instead of the shim (cross-check
+    of the shim, and of penne against natural errno values)."""
+    seed, idx = args
+    variant = FS_VARIANTS[idx % len(FS_VARIANTS)]
+    sub = ["emit", "run", "build"][(idx // len(FS_VARIANTS)) % 3]
+    rng = rng_for(seed, "C18/fs", idx)
+    force = {"cell": (0, 0, 0), "silent": False, "verbose": False, "script": {"read": "all", "exit": 0}, "order": "parent_first",
+             "config": "none", "out_dir": "fresh", "wasm": False}
+    if variant == "config_is_directory":
+        sub = "build"
+    sc = make_scenario(rng, sub, "valid_multi", force)
+    sc["name"] = "fs:%s:%s" % (variant, sub)
+    first = (sc["modules"][0][:-3]) + ".pn.ll"
+    expect_fail = True
+    if variant == "artefact_is_directory":
+        sc["pre_dirs"].append(os.path.join("out", first))
+    elif variant == "artefact_symlink_to_devfull":
+        sc["pre_symlinks"] = {os.path.join("out", first): "/dev/full"}
+    elif variant == "out_dir_through_regular_file":
+        sc["pre_files"] = {}
+        sc["files"]["blocker"] = b"not a directory\n"
+        i = sc["opts"].index("--out-dir")
+        sc["opts"][i + 1] = "blocker/out"
+        sc["out_dir"] = "blocker/out"
+    elif variant == "source_is_directory":
+        sc["pre_dirs"].append("extra_dir.pn")
+        sc["inputs"] = sc["inputs"] + ["extra_dir.pn"]
+        sc["inputs_ok"] = False
+    elif variant == "source_symlink_loop":
+        sc["pre_symlinks"] = {"loop.pn": "loop.pn"}
+        sc["inputs"] = sc["inputs"] + ["loop.pn"]
+        sc["inputs_ok"] = False
+    elif variant == "stdout_devfull":
+        sc["stdout_kind"] = "devfull"
+        expect_fail = None
+    elif variant == "stdout_closed":
+        sc["stdout_kind"] = "closed"
+        expect_fail = None
+    elif variant == "config_is_directory":
+        sc["pre_dirs"].append("penne.toml")
+        sc["opts"] += ["--config", "penne.toml"]
+        sc["config_ok"] = False
+    wd = os.path.join(work_root(), "C18", "v%d" % idx)
+    obs = exec_scenario(sc, wd)
+    obs["artefacts_ref"] = obs["artefacts"]
+    v, calls, _ = judge(sc, obs, None, "fs_variant", None)
+    viol = [{"class": c, "detail": d, "scenario": sc_json(sc), "plan": [], "fault": variant} for c, d in v]
+    ok_exit = obs["rc"] == 0 and not obs["sig"]
+    if expect_fail and ok_exit:
+        viol.append({"class": "silent_failure", "detail": "exit 0 although %s (a failure produced by the real file system)" % variant,
+                     "scenario": sc_json(sc), "plan": [], "fault": variant})
+    return {"variant": variant, "sub": sub, "status": obs["status"], "violations": viol}
+
+
 def _script_grid_job(args):
     """Every backend behaviour x --silent x subcommand x forced order."""
     seed, idx = args
@@ -783,14 +863,16 @@ def minimise(v):
             shutil.rmtree(root, ignore_errors=True)
             return v, False
         for p in list(plan):
+            if min_expired():
+                break
             trial = [x for x in plan if x != p]
             if holds(sc, trial):
                 plan = trial
         # drop options one at a time (value options together with their value)
         i = 0
-        while i < len(sc["opts"]):
+        while i < len(sc["opts"]) and not min_expired():
             o = sc["opts"][i]
-            width = 2 if o in ("--out-dir", "--backend", "--backend-args", "--link-args", "--config", "-o") else 1
+            width = 2 if o in ("--out-dir", "--backend", "--config", "-o") else 1
             if o in ("--out-dir",):
                 i += width
                 continue
@@ -807,9 +889,9 @@ def minimise(v):
                 sc2["arrows"] = "unicode"
             if o == "--wasm":
                 sc2["wasm"] = False
-            if o == "--backend-args":
+            if o.startswith("--backend-args="):
                 sc2["backend_args"] = []
-            if o == "--link-args":
+            if o.startswith("--link-args="):
                 sc2["link_args"] = []
             if o in ("--backend", "--config", "-o"):
                 i += width
@@ -828,6 +910,7 @@ def minimise(v):
 
 
 def _min_job(v):
+    set_min_budget()
     m, ok = minimise(v)
     sc = m["scenario"]
     record = {"engine": "clisim", "scenario": sc, "plan": m["plan"], "fault": m.get("fault"),
@@ -885,6 +968,11 @@ def run(tier, seed):
         script_cells += 1
         branches.add(res["branch"])
         raw.extend(res["violations"])
+    fs_cells = {}
+    for res in parallel_map(_fs_variant_job, [(seed, i) for i in range(len(FS_VARIANTS) * 3)]):
+        runs += 1
+        fs_cells["%s/%s" % (res["variant"], res["sub"])] = res["status"]
+        raw.extend(res["violations"])
     swarm_done = 0
     for res in parallel_imap(_swarm_job, ((seed, i) for i in range(cfg["swarm"])), chunksize=4):
         absorb(res)
@@ -922,6 +1010,7 @@ def run(tier, seed):
         "backend_resolution_cells": {"covered": len(grid_cells), "of": N_GRID, "cells": grid_cells},
         "backend_script_grid_cells": {"covered": script_cells, "of": len(script_grid()),
                                       "dimensions": "subcommand {run, build} x --silent x %d backend scripts x forced order" % len(SCRIPTS)},
+        "real_filesystem_variants": fs_cells,
         "swarm_runs": swarm_done,
         "real_lli_cross_checks": lli_runs,
         "fault_kinds_configured": configured,
